@@ -3,6 +3,7 @@ import Dawn.Proofs.PickleFuel
 import Dawn.Proofs.PickleCanon
 import Dawn.Proofs.PickleEnv
 import Dawn.Proofs.PickleStream
+import Dawn.Proofs.PickleReuse
 /-!
 # C07 — the pickle codec round-trips every value exactly;  C15 — decoding arbitrary bytes never crashes
 
@@ -217,6 +218,35 @@ theorem C15_no_crash (cfg : DecCfg) (bs : Bytes) (hf : cfg.failureIsInterface = 
     · exact absurd h2 s1
     · rw [s2 h' v h2] at h3; cases h3
   | outOfFuel => rw [hr] at hsafe; exact hsafe.elim
+
+/-- C15 for a Decoder that is used AGAIN: however many times `Decode` is called on one Decoder over any byte string —
+after calls that failed (the Decoder keeps the stack as the failing op left it and goes on reading where it stopped;
+`failState`, compared with the real Decoder call by call in the streams `decn.*`) as after calls that succeeded —
+every call returns a well-formed value or an error; none returns `(nil, nil)`, none hangs. -/
+theorem C15_reuse_no_crash (cfg : DecCfg) (n : Nat) (bs : Bytes) (hf : cfg.failureIsInterface = true) (hh : HostSane cfg) :
+    ∀ o ∈ decodeCalls cfg n {} bs,
+      (∃ h v, o = .ok h v ∧ v.closed h.length ∧ ∀ x ∈ h, x.closed h.length) ∨ (∃ k, o = .err k) := by
+  have hno : ¬ HostMisbehaves cfg := by
+    rintro ⟨f, h, a, m, nm, xs, h1, hcl, hget, h2⟩
+    obtain ⟨s1, s2⟩ := hh f h1 h a m nm xs hcl hget
+    rcases h2 with h2 | ⟨h', v, h2, h3⟩
+    · exact s1 h2
+    · rw [s2 h' v h2] at h3; cases h3
+  intro o ho
+  have := decodeCalls_safe cfg hf hno n {} bs Closed.init o ho
+  cases o with
+  | ok h v => exact Or.inl ⟨h, v, rfl, this.1, this.2⟩
+  | err k => exact Or.inr ⟨k, rfl⟩
+  | nilNoErr => exact this.elim
+  | outOfFuel => exact this.elim
+
+/-- what the model (and the real Decoder) answers when called again: after `K 1 .` the value 1; TUPLE2 on the empty
+stack fails; TUPLE1 fails; the fourth call reads the final STOP with nothing to return. After `] K 1 N TUPLE2 APPEND` — the
+tuple popped, then no list under it — the stack is left EMPTY (`d.pop()` came before the failing test). -/
+example : decodeCalls {} 4 {} [0x4b, 1, 0x2e, 0x86, 0x85, 0x2e] =
+    [.ok [] (.atom (.int 1)), .err .underflow, .err .underflow, .err .underflow] := by decide
+example : (decodeCall {} 9 {} [0x4b, 1, 0x4e, 0x86, 0x61, 0x2e]).2.1.stack = [] ∧
+    decodeCalls {} 2 {} [0x4b, 1, 0x4e, 0x86, 0x61, 0x2e] = [.err .underflow, .err .underflow] := by decide
 
 /-- C15, termination alone needs no hypothesis at all -/
 theorem C15_terminates (cfg : DecCfg) (bs : Bytes) : decode cfg bs ≠ .outOfFuel := by
